@@ -12,6 +12,9 @@ The exact-partition arithmetic is not decidable by this technique. Decided:
                    claim, also a failing one; it cannot wrap only if it is strictly wider than the
                    index type (compile-time witness for all 8 index types) or the advance is guarded
                    by the bound.
+  C12.last-chunk-end in the dynamic-chunk worker loops a chunk end computed as begin + chunkSize is used
+                   only for chunks before the last one (the last ends at `end`: no overflow at the
+                   index type's maximum).
   C12.serial-range when parallel_for runs the loop on the caller alone, the body gets the caller's
                    whole range (range.start, range.end), not the granularity-trimmed copy.
 """
@@ -115,6 +118,7 @@ def run(R):
              sitekey="cursor:" + t, why="a cursor of the index type's own width wraps when failing claims keep adding chunkSize near the type's maximum: chunks are claimed again / the loop never terminates")
     R.need("C12.cursor-width", k, 8, "StripeCursor width witnesses")
     serial_range(R)
+    last_chunk_end(R)
 
 
 def serial_range(R):
@@ -166,3 +170,40 @@ def serial_range(R):
                  "serial fallback runs f over [%s, %s), not over the caller's whole range: the indices outside it (the granularity tail) are never visited" % (expr_str(a), expr_str(b)),
                  sitekey="serial-call", why="every index of [start, end) is visited exactly once, whichever dispatch path is taken")
     R.need("C12.serial-range", n, 2, "serial fallbacks in parallel_for")
+
+
+def last_chunk_end(R):
+    """C12.last-chunk-end: in the dynamic-chunk worker loops the end of a chunk is `begin + chunkSize`
+    only for chunks that are *not* the last one; the last chunk ends at the range's `end` itself. An
+    upper bound that is computed by addition for every chunk (e.g. min(begin + chunkSize, end)) wraps
+    for 64-bit index types when the range ends within one chunk of the type's maximum, and the last
+    chunk is then invoked with end < begin: its indices are never visited."""
+    F = R.F
+    n = 0
+    for fn in F.fns:
+        rq = fn.root_parent().qname
+        if rq not in ("dispenso::detail::parallel_for_dynamicImpl", "dispenso::detail::parallel_for_dynamicMultiGroupImpl"):
+            continue
+        for pos, ev in fn.events():
+            if not (ev.get("k") == "call" and ev.get("opcall") == "()" and len(ev.get("args", [])) == 3):
+                continue
+            o = strip_casts(ev.get("obj"))
+            if not (isinstance(o, dict) and o.get("k") == "var" and o.get("name") == "f"):
+                continue
+            hi = fn.expand_expr(ev["args"][2], use_block=pos.b)
+            adds = [x for x in subexprs(hi) if isinstance(x, dict) and x.get("k") == "bin" and x.get("op") == "+" and
+                    any(isinstance(y, dict) and y.get("k") == "var" and y.get("name") == "chunkSize" for y in subexprs(x))]
+            if not adds:
+                continue       # the invocation that ends at `end`
+            n += 1
+            guarded = False
+            for a, pol, _ in fn.guard_atoms(pos):
+                aa = strip_casts(a)
+                if isinstance(aa, dict) and aa.get("k") == "bin" and aa.get("op") in ("==", "!=", "<", ">=") and any(isinstance(y, dict) and y.get("k") == "var" and y.get("name") == "numChunks" for y in subexprs(aa)) \
+                        and any(isinstance(y, dict) and y.get("k") == "bin" and y.get("op") == "+" and const_val(y.get("r")) == 1 for y in subexprs(aa)):
+                    if (aa["op"] == "==" and not pol) or (aa["op"] == "!=" and pol) or (aa["op"] == "<" and pol) or (aa["op"] == ">=" and not pol):
+                        guarded = True
+            R.ob("C12.last-chunk-end", fn, ev, guarded, "the computed chunk end (%s) is used only for chunks before the last one" % expr_str(ev["args"][2]) if guarded else
+                 "the chunk end %s is computed by addition for every chunk, including the last: for 64-bit index types it wraps when the range ends within one chunk of the type's maximum" % expr_str(ev["args"][2]),
+                 sitekey="dynamic-worker:%s" % rq.split("::")[-1], why="ranges touching the index type's limits are covered exactly once")
+    R.need("C12.last-chunk-end", n, 2, "dynamic-chunk worker invocations with a computed end")
